@@ -618,5 +618,5 @@ from vf.checks.c01 import st_cli as _st_ape_cli
 st_cli = st.builds(_mk_rpe_cli, _st_ape_cli(),
                    st.sampled_from(sorted(pipeline.REL_CLI) + ["point_distance_error_ratio"]), st.sampled_from(["f", "f", "r", "d", "m"]),
                    st.fixed_dictionaries({"frames": st.integers(1, 4), "m": st.sampled_from([0.05, 1.0, 30.0]), "r": st.sampled_from([0.05, 0.3, 1.0])}),
-                   st.booleans(), st.booleans(), st.sampled_from([0.1, 0.5]))
+                   st.booleans(), st.booleans(), st.sampled_from([0.1, 0.5, 0.1, 0.0]))
 SUBS.append(Sub("cli", sub_cli, st_cli, 800, 30000, nontrivial=lambda c: True, shards_quick=8))
